@@ -17,6 +17,7 @@ are evaluated on checksum-covered byte ranges taken from the files and compared 
 """
 import collections, hashlib, json, os, shutil
 import vlib, histlib, histgen, h5spec
+from props import c05spec
 from histlib import ESZ, SIGNED, UNLIMITED, prod, hx
 
 TRUSTED = ["C05: tools/h5spec.py (independent decoder: my reading of the HDF5 File Format Specification 3.0), tools/histlib.py oracle, hist harness glue",
@@ -120,7 +121,7 @@ def judge_vlen(case, r):
         return dict(problems=["harness: %s" % str(r)[:300]], tags={}, res=None, harness=True)
     if not r["create"].get("ok") or not r["close"].get("ok"):
         return dict(problems=["create: CreateForWrite/Close failed: %r %r" % (r["create"], r.get("close"))], tags={}, res=None)
-    res = h5spec.walk(r["file"])
+    res = c05spec.walk(r["file"])
     for a, b in h5spec.overlaps(res["extents"])[:4]:
         problems.append("overlap: %s of %s at [%d,%d) overlaps %s of %s at [%d,%d)" % (a[2], a[3], a[0], a[1], b[2], b[3], b[0], b[1]))
     for e in res["errors"][:6]:
@@ -270,7 +271,7 @@ def judge_file(case, r):
     if not r["create"].get("ok"):
         return dict(problems=["create: CreateForWrite failed: %r" % (r["create"],)], tags={}, res=None)
     orc, _fs, _snaps = histlib.run_oracle(case, r)
-    res = h5spec.walk(r["file"])
+    res = c05spec.walk(r["file"])
     size = res["size"]
     for s, e, kind, owner in res["extents"]:
         if not (0 <= s < e <= size):
@@ -376,6 +377,106 @@ def py_extents_ok(fs, eof, l):
     return all(x[1] <= y[0] for x, y in zip(s, s[1:]))
 
 
+# ----------------------------------------------------------------------------- specification tie (Coq spec decoders)
+
+REF_DIR = os.path.join(os.environ.get("VERIF_REPO", "/repo"), "testdata", "hdf5_official")
+
+
+import re
+# deliberately malformed files of the reference test suite (fuzzer findings, CVE reproducers, wrong counts/offsets)
+REF_SKIP = re.compile(r"bad|cve|corrupt|memleak|infinite|fuzz|err_|zero_dim|invalid", re.I)
+
+
+def reference_structs(nfiles):
+    """structures of reference-library files (not written by this library) that the Python decoder accepts without any deviation"""
+    out, used, seen = [], [], set()
+    import glob
+    for f in sorted(glob.glob(os.path.join(REF_DIR, "*.h5"))):
+        if os.path.getsize(f) > 400000 or REF_SKIP.search(os.path.basename(f)):
+            continue
+        try:
+            res = c05spec.walk(f, probe=True)
+        except Exception:
+            continue
+        good = []
+        for s in res["structs"]:
+            k = (s["kind"], s["bytes"], tuple(s["ctx"]))
+            if s.get("reject") or s["tags"] or k in seen:
+                continue
+            seen.add(k)
+            s["ref"] = os.path.basename(f)
+            good.append(s)
+        if good:
+            out += good
+            used.append(os.path.basename(f))
+        if len(used) >= nfiles:
+            break
+    return out, used
+
+
+def spec_tie(H, ctx, structs):
+    import time
+    t0 = time.time()
+    q = ctx.tier == "quick"
+    budget = 3000 if q else 60000
+    picked, nclasses = c05spec.sample(structs, ctx.rng, budget)
+    refs, reffiles = reference_structs(1000)
+    refpicked, _ = c05spec.sample(refs, ctx.rng, 800 if q else 20000)
+    allp = picked + refpicked
+    codes = c05spec.coq_codes(allp)
+    viol = []
+    hist = collections.Counter()
+    strict_acc, tol_acc, rejected_both = collections.Counter(), collections.Counter(), collections.Counter()
+    tagh = collections.Counter()
+    seen_bad = set()
+    for s, code in zip(allp, codes):
+        k = s["kind"] + ("@ref" if "ref" in s else "")
+        hist[k] += 1
+        if code == 0:
+            if s.get("reject"):
+                rejected_both[k] += 1
+            else:
+                tol_acc[k] += 1
+                if not s["tags"]:
+                    strict_acc[k] += 1
+                for t in s["tags"]:
+                    tagh[t] += 1
+        if code == 0 and not s.get("reject"):
+            continue
+        key = (s["kind"], code, bool(s.get("reject")), "ref" in s)
+        if key in seen_bad or len(viol) >= 6:
+            continue
+        seen_bad.add(key)
+        shown = c05spec.coq_show(s)
+        src = ("reference file %s" % s["ref"]) if "ref" in s else "a file written by the library"
+        if s.get("reject") and code == 0:
+            viol.append(dict(what="the Coq specification decoder (strict and tolerant) and the Python decoder both reject the %s %s of %s: %s" % (
+                                 s["kind"], s.get("where", ""), src, s.get("error", "")[:200]),
+                             failing_input=case_input(s), structure=dict(kind=s["kind"], ctx=s["ctx"], bytes=s["bytes"].hex()[:4000]), coq=shown))
+        else:
+            d = dict(what="the Coq specification decoder and the Python decoder disagree on the %s %s of %s (code %d: %s); Python: %s" % (
+                         s["kind"], s.get("where", ""), src, code, {1: "tolerant decoder", 2: "strict decoder", 3: "tolerant and strict decoder"}.get(code, "?"),
+                         ("rejects: " + s.get("error", "")[:160]) if s.get("reject") else ("accepts with deviation tags %s" % s["tags"])),
+                     structure=dict(kind=s["kind"], ctx=s["ctx"], bytes=s["bytes"].hex()[:4000], python_expected=c05spec.expected_val(s)[:2000]), coq=shown,
+                     nofail=True, correspondence="Spec/Format*.v spec decoders (Model.SpecTie.obs) vs tools/h5spec.py on the same bytes")
+            if "ref" not in s:
+                d["case"] = case_input(s)
+            viol.append(d)
+    cov = dict(spec_structures_total=len(structs), spec_structure_classes=nclasses, spec_structures_checked=len(picked),
+               spec_reference_files=len(reffiles), spec_reference_skipped="file names matching /%s/ (deliberately malformed test inputs)" % REF_SKIP.pattern, spec_reference_structures_checked=len(refpicked),
+               spec_kind_histogram=dict(hist), spec_strict_accept=dict(strict_acc), spec_tolerant_accept=dict(tol_acc),
+               spec_both_reject=dict(rejected_both), spec_tags=dict(tagh),
+               spec_sampling="every distinct (kind, length, deviation tags, context) class once, then a uniform random sample up to %d structures; "
+                             "structures longer than 6000 bytes (and all but 10 per kind of those longer than 1000 bytes) are left to the Python decoder" % budget,
+               spec_wall_seconds=round(time.time() - t0, 1))
+    return viol, cov
+
+
+def case_input(s):
+    c = s.get("case") or {}
+    return {k: c[k] for k in ("sb", "ops", "datasets") if k in c}
+
+
 # ----------------------------------------------------------------------------- driver
 
 class Crash(Exception):
@@ -428,9 +529,13 @@ def run(ctx):
     first_bad, nbad, first_unlisted = None, 0, {}
     samples, vectors = [], []
     nfiles = nextents = 0
+    structs = []
     try:
         for c, r in produce(H, cases + vcases):
             j = judge_vlen(c, r) if "datasets" in c else judge_file(c, r)
+            for st in ((j.get("res") or {}).get("structs") or []):
+                st["case"] = c
+                structs.append(st)
             if j.get("harness"):
                 viol.append(dict(what="hist harness failed on a case: " + j["problems"][0], case=c, nofail=True, correspondence="harness/hist"))
                 continue
@@ -511,6 +616,9 @@ def run(ctx):
                          case=dict(algo=vectors[i][0], bytes=vectors[i][1].hex()), nofail=True, correspondence="Base.Crc32.crc32 / Spec.Lookup3.hashlittle vs zlib.crc32 / h5spec.lookup3 vs stored checksum"))
     else:
         side_ok += 1
+    # the Coq specification decoders (Spec/Format*.v) on the structures of the written files and of reference files
+    spec_viol, spec_cov = spec_tie(H, ctx, structs)
+    viol += spec_viol
     cov = dict(evaluations=nfiles, distinct_nontrivial=len(nontrivial),
                rule="one evaluation = one closed file written by the real library from a generated API history, walked by the independent decoder "
                     "(bounds, disjointness, consistency, decoded tree == oracle, deviation tags within the known list); a file is non-trivial when at least two "
@@ -521,6 +629,7 @@ def run(ctx):
                deviation_tags=dict(tagcount), files_failing=nbad, coq_extent_lists=len(samples), coq_checksum_vectors=len(vectors),
                checksum_vector_algos=dict(collections.Counter(a for a, b, s in vectors)),
                side_obligations=side, side_discharged=side_ok, programs=nfiles, disagreements_checked=nfiles)
+    cov.update(spec_cov)
     return dict(violations=viol, known=known_lines, coverage=cov)
 
 
